@@ -82,11 +82,14 @@ Definition covers1 (h : lockset) (p : string * lmode) : bool :=
   if is_ex (snd p) then holds_ex h (fst p) else holds_any h (fst p).
 Definition covers (h need : lockset) : bool := forallb (covers1 h) need.
 
-Fixpoint entry_of (fs : list func_decl) (f : string) : lockset :=
+Fixpoint decl_of (fs : list func_decl) (f : string) : option func_decl :=
   match fs with
-  | [] => []
-  | d :: r => if String.eqb (fn_name d) f then fn_entry d else entry_of r f
+  | [] => None
+  | d :: r => if String.eqb (fn_name d) f then Some d else decl_of r f
   end.
+
+Definition entry_of (fs : list func_decl) (f : string) : lockset :=
+  match decl_of fs f with Some d => fn_entry d | None => [] end.
 
 (* the static lock annotation of a site: lexical locks plus the entry locks of its context *)
 Definition eff_locks (tbl : access_table) (s : site) : lockset :=
